@@ -148,7 +148,7 @@ def param_grid(rnd, quick):
     out = []
     for mu, rel in [(60, 0.1), (400, 0.3), (5000, 0.01), (1500, 0.6)]:
         out.append(("gauss", [float(mu), float(mu * rel)]))
-    for lo, hi in [(0, 100), (12, 72), (500, 600), (100, 5000)]:
+    for lo, hi in [(0, 100), (12, 72), (500, 600), (100, 5000), (20.9, 160.9), (0.5, 99.75)]:
         out.append(("uniform", [lo, hi]))
     for mn, d in [(50, 1.1), (500, 1.05), (2000, 1.5), (120, 2.0)]:
         out.append(("log_normal", [float(mn), d]))
